@@ -259,6 +259,8 @@ struct Files {
     dir: PathBuf,
     /// base paths of the environment with their class
     env: Vec<(String, &'static str)>,
+    /// session files by content (see create_content)
+    content: Vec<Content>,
 }
 impl Files {
     fn create(dir: &Path, seed: u64) -> Files {
@@ -290,12 +292,15 @@ impl Files {
         std::fs::write(dir.join("mv.zip.001"), &az[..az.len() / 2]).unwrap();
         std::fs::write(dir.join("mv.zip.002"), &az[az.len() / 2..]).unwrap();
         let env = create_env(dir, seed);
-        Files { dir: dir.to_path_buf(), env }
+        let content = create_content(dir, seed);
+        let _ = CONTENT.set(content.iter().map(|c| (c.path.clone(), c.clone())).collect());
+        Files { dir: dir.to_path_buf(), env, content }
     }
     /// replaces the @X placeholders of a frame template by paths
     fn subst(&self, s: &str) -> String {
         let p = |n: &str| self.dir.join(n).to_str().unwrap().to_string();
         s.replace("@E/", &format!("{}/", p("env")))
+            .replace("@K/", &format!("{}/", p("content")))
             .replace("@BADZIP", &p("bad.zip"))
             .replace("@ZA", &p("arch.zip"))
             .replace("@ZS", &p("slow.zip"))
@@ -312,6 +317,494 @@ impl Files {
             .replace("@NOFILE", &p("nofile.dlt"))
             .replace("@DIR", &p("sub"))
     }
+}
+
+
+// ---------------------------------------------------------------- session files by content
+// What the opened file makes the background threads (parser, lifecycle stage, plugins, sorter) publish and the
+// tick of the connection thread read: traces of the lifecycle engineer's generators (merge / confirmation /
+// resume / reboot histories, control messages of all shapes), file transfers, garbage, empty and tiny files.
+// Ground truth per file is computed in-process with the trusted stages themselves (the parser's iterator and the
+// lifecycle detector of the adlt library): number of messages, and the lifecycle table as a reader sees it -
+// every key with its VALUE BAG.
+
+/// facts about one content file
+#[derive(Clone, Debug)]
+struct Content {
+    name: String,
+    path: String,
+    class: &'static str,
+    /// messages the parser delivers
+    nmsgs: u32,
+    /// the first 512 KiB hold a DLT message: `open` takes the file
+    open_ok: bool,
+    /// final lifecycle table: (key rank, bag = [(lifecycle rank, nr_msgs)]); None = the detector could not be run (panic)
+    table: Option<Vec<(u32, Vec<(u32, u32)>)>>,
+    /// a file transfer history (the FileTransfer plugin takes FLDA messages out)
+    ft: bool,
+}
+static CONTENT: std::sync::OnceLock<std::collections::HashMap<String, Content>> = std::sync::OnceLock::new();
+/// replay: content files of the recorded run (name -> bytes)
+static REPLAY_CONTENT: std::sync::OnceLock<Vec<(String, Vec<u8>)>> = std::sync::OnceLock::new();
+
+fn content_of_path(path: &str) -> Option<&'static Content> {
+    CONTENT.get().and_then(|m| m.get(path))
+}
+/// the single content / small plain file an `open` body names (None: several files, archives, unknown files)
+fn content_of_open(frame: &str) -> Option<&'static Content> {
+    let v: Value = serde_json::from_str(params_of(frame)).ok()?;
+    let a = v["files"].as_array()?;
+    if a.len() != 1 {
+        return None;
+    }
+    content_of_path(a[0].as_str()?)
+}
+fn lc_table_coq(t: &[(u32, Vec<(u32, u32)>)]) -> String {
+    format!("TLcs (Some {})", clist(&t.iter().map(|(k, bag)| format!("({}, {})", k, clist(&bag.iter().map(|(i, n)| format!("({}, {})", i, n)).collect::<Vec<_>>()))).collect::<Vec<_>>()))
+}
+
+/// runs the parser's iterator and the lifecycle detector of the library over a file, as the threads of the server
+/// do, and reads the published table the way a reader gets it (key -> bag)
+fn probe_content(path: &Path) -> (u32, bool, Option<Vec<(u32, Vec<(u32, u32)>)>>) {
+    use adlt::lifecycle::{Lifecycle, LifecycleId, LifecycleItem};
+    let p = path.to_path_buf();
+    let open_ok = {
+        let p = p.clone();
+        catch(move || {
+            let mut f = std::fs::File::open(&p).unwrap();
+            let ns = adlt::utils::get_new_namespace();
+            adlt::utils::get_dlt_infos_from_file("dlt", &mut f, 512 * 1024, ns).map(|d| d.first_msg.is_some()).unwrap_or(false)
+        })
+        .unwrap_or(false)
+    };
+    let r = catch(move || {
+        let f = std::fs::File::open(&p).unwrap();
+        let ns = adlt::utils::get_new_namespace();
+        let reader = adlt::utils::LowMarkBufReader::new(f, 512 * 1024, adlt::dlt::DLT_MAX_STORAGE_MSG_SIZE + 4);
+        let msgs: Vec<adlt::dlt::DltMessage> = adlt::utils::get_dlt_message_iterator("dlt", 0, reader, ns, None, None, None).collect();
+        let n = msgs.len() as u32;
+        // ids are global to the process: rank them relative to a fresh one
+        let base = {
+            let mut m = dltgen::plain_msg(0, 99, 1, 0);
+            Lifecycle::new(&mut m).id()
+        };
+        let (lcs_r, lcs_w) = evmap::new::<LifecycleId, LifecycleItem>();
+        let (tx, rx) = std::sync::mpsc::channel();
+        for m in msgs {
+            tx.send(m).unwrap();
+        }
+        drop(tx);
+        let _w = adlt::lifecycle::parse_lifecycles_buffered_from_stream(lcs_w, rx, &|_m| Ok(()));
+        let mut t: Vec<(u32, Vec<(u32, u32)>)> = vec![];
+        if let Some(a) = lcs_r.read() {
+            for (id, b) in a.iter() {
+                let mut bag: Vec<(u32, u32)> = b.iter().map(|lc| (lc.id().wrapping_sub(base), lc.nr_msgs)).collect();
+                bag.sort();
+                t.push((id.wrapping_sub(base), bag));
+            }
+        }
+        t.sort();
+        (n, t)
+    });
+    match r {
+        Ok((n, t)) => (n, open_ok, Some(t)),
+        Err(_) => (0, open_ok, None),
+    }
+}
+
+fn write_specs(path: &Path, specs: &[lcgen::MSpec]) {
+    let mut f = std::io::BufWriter::new(std::fs::File::create(path).unwrap());
+    for (i, s) in specs.iter().enumerate() {
+        s.build(i as u32).to_write(&mut f).unwrap();
+    }
+    f.flush().unwrap();
+}
+
+/// verbose payload from arguments: (type info, bytes); strings and raw data get their 16 bit length
+fn verbose_payload(args: &[(u32, Vec<u8>)]) -> Vec<u8> {
+    let mut p = vec![];
+    for (ti, d) in args {
+        p.extend_from_slice(&ti.to_le_bytes());
+        if *ti == 0x200 || *ti == 0x400 {
+            p.extend_from_slice(&(d.len() as u16).to_le_bytes());
+        }
+        p.extend_from_slice(d);
+    }
+    p
+}
+fn verbose_msg(index: u32, ecu: u8, rt: u64, ts_dms: u32, args: &[(u32, Vec<u8>)]) -> adlt::dlt::DltMessage {
+    let mut m = dltgen::with_ext(dltgen::plain_msg(index, ecu, rt, ts_dms), 0x41, args.len() as u8, b"APID", b"CTID");
+    m.standard_header.mcnt = (index & 0xff) as u8;
+    m.payload = verbose_payload(args);
+    m
+}
+/// a history of file transfers (FLST / FLDA.. / FLFI of the FileTransfer plugin) between ordinary messages; variants:
+/// complete, packages missing / repeated / out of order / beyond the announced number, sizes that do not fit, no FLST,
+/// no FLFI, two transfers with one serial, a huge announced size, zero packages
+fn gen_file_transfer(rng: &mut Rng, variants: &[u64]) -> Vec<adlt::dlt::DltMessage> {
+    let strg = |s: &str| (0x200u32, [s.as_bytes(), &[0u8]].concat());
+    let u32a = |v: u32| (0x43u32, v.to_le_bytes().to_vec());
+    let i32a = |v: i32| (0x23u32, v.to_le_bytes().to_vec());
+    let mut out = vec![];
+    let mut rt = lcgen::RHO + rng.below(1000) * 1_000_000;
+    let start = rt - 5_000_000;
+    let mut push = |out: &mut Vec<adlt::dlt::DltMessage>, rt: u64, args: &[(u32, Vec<u8>)]| {
+        let i = out.len() as u32;
+        out.push(verbose_msg(i, 1, rt, ((rt - start) / 100) as u32, args));
+    };
+    for (t, variant) in variants.iter().cloned().enumerate() {
+        // now and then the serial of the previous transfer again
+        let serial = if t > 0 && rng.chance(1, 4) { 17 + t as u32 - 1 } else { 17 + t as u32 };
+        let npk = if variant == 1 { 0 } else { *rng.pick(&[1u32, 2, 3, 5]) };
+        let bufsize = *rng.pick(&[4u32, 4, 16, 0, 512]);
+        let size = match variant {
+            0 => u32::MAX,
+            1 => 0,
+            2 => npk * bufsize + 7,
+            _ => npk * bufsize,
+        };
+        let announced = match variant {
+            3 => npk + 2,
+            4 => u32::MAX,
+            _ => npk,
+        };
+        rt += rng.range(1_000, 900_000);
+        push(&mut out, rt, &[strg("hello before the transfer")]);
+        if variant != 5 {
+            rt += rng.range(1_000, 900_000);
+            push(&mut out, rt, &[strg("FLST"), u32a(serial), strg(*rng.pick(&["test_file.bin", "", "../x/y.bin", "a b.txt"])), u32a(size), strg("2022-06-02 21:54:00"), u32a(announced), u32a(bufsize), strg("FLST")]);
+        }
+        let mut order: Vec<i32> = (1..=npk as i32).collect();
+        match variant {
+            6 => order.reverse(),
+            7 => {
+                if !order.is_empty() {
+                    order.remove(0);
+                    order.push(1 + npk as i32);
+                }
+            }
+            8 => {
+                // every package twice, package numbers 0 and -1 while the transfer is running
+                let d = order.clone();
+                order.clear();
+                for (i, pk) in d.into_iter().enumerate() {
+                    if i == 0 && rng.chance(1, 2) {
+                        order.push(0);
+                    }
+                    order.push(pk);
+                    order.push(pk);
+                    if i == 0 {
+                        order.push(0);
+                        order.push(-1);
+                    }
+                }
+            }
+            _ => {}
+        }
+        for pk in order {
+            rt += rng.range(100, 50_000);
+            let data: Vec<u8> = (0..if rng.chance(1, 6) { bufsize + 3 } else { bufsize }).map(|i| (i as u8) ^ (pk as u8)).collect();
+            push(&mut out, rt, &[strg("FLDA"), u32a(serial), i32a(pk), (0x400u32, data), strg("FLDA")]);
+            if rng.chance(1, 4) {
+                rt += rng.range(100, 50_000);
+                push(&mut out, rt, &[strg("in between"), u32a(pk as u32)]);
+            }
+        }
+        if variant != 9 {
+            rt += rng.range(100, 50_000);
+            push(&mut out, rt, &[strg("FLFI"), u32a(serial), strg("FLFI")]);
+        }
+    }
+    rt += 1_000_000;
+    push(&mut out, rt, &[strg("bye")]);
+    out
+}
+
+/// a lifecycle that is published and merged away afterwards (one ECU, optionally a second one logging in between): a
+/// lifecycle P stays buffered; after a reception gap >= 10 s its follower L continues P's timestamps and its calculated
+/// start lies >= 10 s after P's (resume lifecycle: exempt from the overlap merge); L reaches a timestamp span > 60 s
+/// (moving its start by at most 60 s, more would be ignored) and is published while P - checked after it, none of
+/// the three confirmation rules applies within 60 s after P's end - is still buffered; a later message with a
+/// timestamp below 7/8 of the one L resumed at takes the resume tag away: L overlaps P and is merged into it.
+/// One sample in four stretches the gap so that P is confirmed too before the untagging message arrives (then the
+/// merge is not possible any more).  All constants drawn; times are multiples of 0.1 ms.
+fn gen_resume_published_then_merged(rng: &mut Rng) -> Vec<lcgen::MSpec> {
+    let s = 1_000_000u64;
+    let r100 = |x: u64| x / 100 * 100;
+    let (a, b) = if rng.chance(1, 2) { (1u8, 2u8) } else { (2u8, 1u8) };
+    let late_p = rng.chance(1, 4);
+    let t0 = lcgen::RHO + rng.below(2000) * s + r100(rng.below(s));
+    let ts_p = rng.range(40, 400) * s + r100(rng.below(s));
+    let mut out = vec![];
+    let mut push = |ecu: u8, rt: u64, ts_us: u64| out.push(lcgen::MSpec { ecu, rt, ts_dms: (ts_us / 100) as u32, has_ts: true, kind: 0 });
+    // P: one or two messages in step with the clock (span small)
+    push(a, t0, ts_p);
+    let mut now = t0;
+    let mut ts_pmax = ts_p;
+    if !late_p && rng.chance(1, 3) {
+        let d = r100(rng.range(100_000, 900_000));
+        now += d;
+        ts_pmax += d;
+        push(a, now, ts_pmax);
+    }
+    if rng.chance(1, 3) {
+        now += r100(rng.range(100_000, 900_000));
+        push(b, now, rng.range(1, 5) * s);
+    }
+    let p_last = now;
+    // L: resumes P: reception gap >= 10 s + what the timestamp advanced
+    let delta = r100(rng.below(3 * s));
+    let gap = if late_p { rng.range(55, 58) * s } else { 10 * s + delta + r100(rng.below(28 * s)) };
+    now = p_last + gap;
+    let ts_l = ts_pmax + delta;
+    push(a, now, ts_l);
+    // span of L just beyond 60 s; the start estimate moves back by span - dt <= 60 s
+    let dt = if late_p { r100(rng.range(5_000_000, 6_000_000)) } else { r100(rng.range(1_100_000, 6_000_000)) };
+    let span = 60 * s + 100 + r100(rng.below(dt - 100));
+    now += dt;
+    let ts_l2 = ts_l + span;
+    push(a, now, ts_l2);
+    if !late_p && rng.chance(1, 3) {
+        now += r100(rng.range(1_100_000, 2_500_000));
+        if rng.chance(1, 2) {
+            push(a, now, ts_l2 + (now - (p_last + gap + dt)));
+        } else {
+            push(b, now, rng.range(6, 9) * s);
+        }
+    }
+    // a timestamp clearly below 7/8 of the one L resumed at
+    now += r100(rng.range(1_100_000, 2_500_000));
+    push(a, now, r100(ts_l * rng.range(2, 5) / 8));
+    for _ in 0..rng.below(3) {
+        now += r100(rng.range(1_100_000, 3_000_000));
+        push(a, now, r100(ts_l * 5 / 8 + rng.below(20 * s)));
+    }
+    out
+}
+
+/// the family around the corpus witnesses C03-2 / C07-1 (a lifecycle confirmed by the silence after it and merged away
+/// afterwards): ECU A logs A1 (10..60 s long), a second lifecycle A2 starts right after its end and is pulled back into
+/// the last 2 s of A1 ("slightly overlapping": no merge yet); optionally another ECU B logs in between (its lifecycle
+/// keeps the queue blocked); a message of a third ECU arrives T after A1's end: with T just below 60 s A2 is confirmed
+/// and published while A1 is still buffered, just above 60 s both are published while A2's messages are still queued
+/// behind B, earlier nothing is confirmed, later everything is flushed; finally a late message of A pulls A2's start
+/// 2.5..9 s into A1: merge (or, when the messages are gone, no merge).  All offsets drawn; reception times go backwards.
+fn gen_confirmed_then_pulled(rng: &mut Rng) -> Vec<lcgen::MSpec> {
+    let s = 1_000_000i64;
+    let r100 = |x: i64| x / 100 * 100;
+    let base = (lcgen::RHO + 1000 * s as u64 + rng.below(1000) * s as u64) as i64;
+    let mut ecus = [1u8, 2, 3];
+    for i in (1..3).rev() {
+        let j = rng.below(i as u64 + 1) as usize;
+        ecus.swap(i, j);
+    }
+    let (a, b, c) = (ecus[0], ecus[1], ecus[2]);
+    let mut out = vec![];
+    let mut push = |ecu: u8, off: i64, ts_us: i64| out.push(lcgen::MSpec { ecu, rt: (base + off) as u64, ts_dms: (ts_us / 100) as u32, has_ts: true, kind: 0 });
+    let ts_a = r100(rng.range(12, 60) as i64 * s + rng.below(s as u64) as i64);
+    push(a, 0, ts_a); // A1: start = -ts_a, end = 0
+    let rt_b = r100(rng.range(100_000, 450_000) as i64);
+    let with_b = rng.chance(2, 3);
+    if with_b {
+        push(b, rt_b, 0); // B: end = rt_b
+    }
+    let r1 = r100(rng.range(500_000, 900_000) as i64);
+    push(a, r1, 0); // A2: start = r1 > end of A1
+    let p1 = if rng.chance(3, 4) { r100(rng.range(200_000, 1_900_000) as i64) } else { 0 };
+    if p1 > 0 {
+        push(a, -p1, 0); // A2.start = -p1: inside the last 2 s of A1
+    }
+    let a2_end = if p1 > 0 { -p1 } else { r1 };
+    // the message that makes the confirmation check run
+    let t = match rng.below(8) {
+        // A2 published, A1 still buffered
+        0 | 1 | 2 if p1 > 0 => 60 * s - r100(rng.below(p1 as u64) as i64),
+        // both published, A2's messages queued behind B
+        3 | 4 | 5 if with_b => 60 * s + a2_end.max(0) + 100 + r100(rng.below((rt_b - a2_end.max(0) - 100).max(1) as u64) as i64),
+        6 => r100(rng.range(1, 58) as i64 * s),
+        _ => 60 * s + r100(rng.range(1, 30) as i64 * s),
+    };
+    push(c, t, 0);
+    if rng.chance(1, 3) {
+        push(c, t + r100(rng.range(100_000, 800_000) as i64), r100(rng.range(100_000, 800_000) as i64));
+    }
+    // the late message of A
+    let p2 = r100(rng.range(2_500_000, 9_000_000) as i64);
+    push(a, -p2, 0);
+    for _ in 0..rng.below(3) {
+        let e = *rng.pick(&[a, b, c]);
+        let off = t + r100(rng.range(1, 20) as i64 * s);
+        push(e, off, if e == a { off + ts_a } else { off.min(5 * s) });
+    }
+    out
+}
+
+/// many short histories one after the other (each an hour after the previous one) between steady logging of a third
+/// ECU: a file long enough for several passes of the tick while the table changes
+fn gen_long_history(rng: &mut Rng, segments: u32, filler: u32) -> Vec<lcgen::MSpec> {
+    let mut out: Vec<lcgen::MSpec> = vec![];
+    let mut base = lcgen::RHO;
+    let start3 = base - 1_000_000;
+    for _ in 0..segments {
+        let seg = match rng.below(5) {
+            0 => lcgen::gen_merge_template(rng),
+            1 => gen_resume_published_then_merged(rng),
+            2 => lcgen::gen_resume_chain(rng),
+            3 => gen_confirmed_then_pulled(rng),
+            _ => lcgen::gen_scenario(rng),
+        };
+        let lo = seg.iter().map(|m| m.rt).min().unwrap_or(base);
+        let hi = seg.iter().map(|m| m.rt).max().unwrap_or(base);
+        for m in &seg {
+            let mut m = m.clone();
+            m.rt = m.rt - lo + base;
+            out.push(m);
+        }
+        let mut now = base + (hi - lo);
+        for _ in 0..filler {
+            now += 1_000;
+            out.push(lcgen::MSpec { ecu: 3, rt: now, ts_dms: ((now - start3) / 100) as u32, has_ts: true, kind: 0 });
+        }
+        base = now + 3_600_000_000;
+    }
+    out
+}
+
+/// the content classes a run is expected to open (reported if not)
+const ALL_CONTENT_CLASSES: &[&str] = &["lc_corpus", "lc_merge", "lc_scenario", "lc_resume", "lc_resume_merged", "lc_confirmed_pulled", "lc_general", "lc_clean", "lc_ctrl", "lc_long", "file_transfer", "garbage", "tiny", "plain"];
+
+fn create_content(dir: &Path, seed: u64) -> Vec<Content> {
+    let cdir = dir.join("content");
+    std::fs::create_dir_all(&cdir).unwrap();
+    let mut rng = Rng::new(seed ^ 0xc0_47e_47);
+    let mut files: Vec<(String, &'static str)> = vec![];
+    let mut add_specs = |files: &mut Vec<(String, &'static str)>, name: String, class: &'static str, specs: &[lcgen::MSpec]| {
+        write_specs(&cdir.join(&name), specs);
+        files.push((name, class));
+    };
+    // the lifecycle engineer's corpus (DESIGN Appendix A witnesses C03-1, C03-2, C07-1, ..): a pre-populated table = an earlier part of the file
+    for (k, (pre, msgs)) in lcgen::corpus().into_iter().enumerate() {
+        let all: Vec<lcgen::MSpec> = pre.into_iter().chain(msgs.into_iter()).collect();
+        add_specs(&mut files, format!("lc_corpus_{}.dlt", k), "lc_corpus", &all);
+    }
+    for k in 0..4 {
+        add_specs(&mut files, format!("lc_merge_{}.dlt", k), "lc_merge", &lcgen::gen_merge_template(&mut rng));
+        add_specs(&mut files, format!("lc_scenario_{}.dlt", k), "lc_scenario", &lcgen::gen_scenario(&mut rng));
+        add_specs(&mut files, format!("lc_resume_merged_{}.dlt", k), "lc_resume_merged", &gen_resume_published_then_merged(&mut rng));
+        add_specs(&mut files, format!("lc_confirmed_pulled_{}.dlt", k), "lc_confirmed_pulled", &gen_confirmed_then_pulled(&mut rng));
+    }
+    for k in 0..2 {
+        add_specs(&mut files, format!("lc_resume_{}.dlt", k), "lc_resume", &lcgen::gen_resume_chain(&mut rng));
+        add_specs(&mut files, format!("lc_general_{}.dlt", k), "lc_general", &lcgen::gen_general(&mut rng, 40));
+        add_specs(&mut files, format!("lc_clean_{}.dlt", k), "lc_clean", &(if k == 0 { lcgen::gen_clean(&mut rng) } else { lcgen::gen_clean_boundary(&mut rng, false) }).msgs);
+        let mut c = lcgen::gen_ctrl_trace(&mut rng);
+        if k == 1 {
+            // a merge history with control responses sprinkled in
+            c = lcgen::gen_merge_template(&mut rng);
+            lcgen::sprinkle_ctrl(&mut rng, &mut c);
+        }
+        add_specs(&mut files, format!("lc_ctrl_{}.dlt", k), "lc_ctrl", &c);
+    }
+    add_specs(&mut files, "lc_general_2.dlt".into(), "lc_general", &lcgen::gen_small_time(&mut rng, 30));
+    add_specs(&mut files, "lc_general_3.dlt".into(), "lc_general", &lcgen::gen_near_clean(&mut rng));
+    // control messages of every kind the lifecycle code looks into, one ECU logging steadily
+    {
+        let mut v = vec![];
+        let mut now = lcgen::RHO;
+        let kinds: Vec<u8> = [0u8, 1, 2, 3].into_iter().chain(lcgen::ctrl_kinds()).collect();
+        for (i, k) in kinds.iter().enumerate() {
+            now += 300_000;
+            v.push(lcgen::MSpec { ecu: 1 + (i % 2) as u8, rt: now, ts_dms: 10_000 + i as u32 * 3_000, has_ts: i % 7 != 6, kind: *k });
+        }
+        add_specs(&mut files, "lc_ctrl_all.dlt".into(), "lc_ctrl", &v);
+    }
+    add_specs(&mut files, "lc_long_0.dlt".into(), "lc_long", &gen_long_history(&mut rng, 40, 500));
+    // file transfers: every variant occurs in two of the four files
+    let mut variants: Vec<u64> = (0..20).map(|v| v % 10).collect();
+    for i in (1..variants.len()).rev() {
+        let j = rng.below(i as u64 + 1) as usize;
+        variants.swap(i, j);
+    }
+    for k in 0..4 {
+        let name = format!("ft_{}.dlt", k);
+        let mut f = std::io::BufWriter::new(std::fs::File::create(cdir.join(&name)).unwrap());
+        for m in gen_file_transfer(&mut rng, &variants[5 * k..5 * k + 5]) {
+            m.to_write(&mut f).unwrap();
+        }
+        f.flush().unwrap();
+        files.push((name, "file_transfer"));
+    }
+    // garbage: no message at all, messages between garbage, a cut last message, headers that lie about the length
+    let a = std::fs::read(dir.join("a.dlt")).unwrap();
+    let one = a[..a.len() / 10].to_vec();
+    let noise = |rng: &mut Rng, n: u64| -> Vec<u8> { (0..n).map(|_| rng.below(256) as u8).collect() };
+    let mut g: Vec<(String, Vec<u8>)> = vec![];
+    g.push(("garbage_noise.dlt".into(), noise(&mut rng, 3000)));
+    g.push(("garbage_between.dlt".into(), {
+        let mut v = noise(&mut rng, 50);
+        for i in 0..6 {
+            v.extend_from_slice(&a[i * one.len()..(i + 1) * one.len()]);
+            let n = rng.below(40);
+            v.extend(noise(&mut rng, n));
+            if i % 2 == 0 {
+                v.extend_from_slice(b"DLT\x01");
+            }
+        }
+        v
+    }));
+    g.push(("garbage_cut.dlt".into(), a[..a.len() - rng.range(1, one.len() as u64 - 1) as usize].to_vec()));
+    g.push(("garbage_len.dlt".into(), {
+        let mut v = a.clone();
+        // standard header length fields: too short, longer than the rest of the file
+        let l = one.len();
+        v[l + 18] = 0;
+        v[l + 19] = 2;
+        v[3 * l + 18] = 0xff;
+        v[3 * l + 19] = 0xff;
+        v
+    }));
+    g.push(("garbage_patterns.dlt".into(), b"DLT\x01".repeat(300)));
+    // empty and tiny
+    g.push(("tiny_empty.dlt".into(), vec![]));
+    g.push(("tiny_1byte.dlt".into(), vec![b'D']));
+    g.push(("tiny_pattern.dlt".into(), b"DLT\x01".to_vec()));
+    g.push(("tiny_storage_header.dlt".into(), a[..16].to_vec()));
+    g.push(("tiny_one_msg.dlt".into(), one.clone()));
+    g.push(("tiny_two_msgs.dlt".into(), a[..2 * one.len()].to_vec()));
+    for (name, data) in g {
+        std::fs::write(cdir.join(&name), data).unwrap();
+        let class = if name.starts_with("tiny") { "tiny" } else { "garbage" };
+        files.push((name, class));
+    }
+    if let Some(rc) = REPLAY_CONTENT.get() {
+        for (name, data) in rc {
+            if !name.contains('/') {
+                std::fs::write(cdir.join(name), data).unwrap();
+                if !files.iter().any(|f| &f.0 == name) {
+                    files.push((name.clone(), "replayed"));
+                }
+            }
+        }
+    }
+    let mut out = vec![];
+    for (name, class) in files {
+        let path = cdir.join(&name);
+        let (nmsgs, open_ok, table) = probe_content(&path);
+        out.push(Content { name, path: path.to_str().unwrap().to_string(), class, nmsgs, open_ok, table, ft: class == "file_transfer" });
+    }
+    // the small ordinary files of the other sessions: their table is known too
+    for n in ["a.dlt", "b.dlt", "c.dlt"] {
+        let path = dir.join(n);
+        let (nmsgs, open_ok, table) = probe_content(&path);
+        out.push(Content { name: n.to_string(), path: path.to_str().unwrap().to_string(), class: "plain", nmsgs, open_ok, table, ft: false });
+    }
+    out
+}
+fn hex(d: &[u8]) -> String {
+    d.iter().map(|b| format!("{:02x}", b)).collect()
+}
+fn unhex(s: &str) -> Vec<u8> {
+    (0..s.len() / 2).map(|i| u8::from_str_radix(&s[2 * i..2 * i + 2], 16).unwrap_or(0)).collect()
 }
 
 // ---------------------------------------------------------------- server process + connection
@@ -784,7 +1277,10 @@ fn open_facts(frame: &str) -> (bool, u32, u32) {
     if let Some(a) = v["files"].as_array() {
         for f in a.iter().filter_map(|f| f.as_str()) {
             let plain = |suffix: &str| f.ends_with(suffix) && !f.contains(".zip");
-            let (isarch, nf, nm) = if plain("/a.dlt") {
+            let (isarch, nf, nm) = if let Some(c) = content_of_path(f).filter(|c| c.class != "plain") {
+                // a session file by content: what the parser makes of it was computed in-process
+                (false, if c.open_ok { 1 } else { 0 }, c.nmsgs)
+            } else if plain("/a.dlt") {
                 (false, 1, 10)
             } else if plain("/b.dlt") {
                 (false, 1, 5)
@@ -847,6 +1343,8 @@ struct Cmd {
     sleep_ms: u64,
     /// before sending: wait (at most 90 s) until the lifecycle frames announce at least this many messages (0 = do not wait)
     wait_lc: u32,
+    /// before sending: wait (at most 3 s) until the FileInfo frames report at least this many messages (0 = do not wait)
+    wait_msgs: u32,
     /// send a sentinel (unknown command) right behind this command and count the reply frames up to its notice
     probe: bool,
     frame: String,
@@ -1050,6 +1548,8 @@ struct Tracker {
     exp_files: u32,         // files in file_streams (after the extraction)
     exp_msgs: u32,          // messages of those files
     got_progress: bool,     // a Progress frame was seen since the open
+    lc_table: Option<String>, // the lifecycle table the open file makes the lifecycle thread publish (Coq event), if known
+    lc_table_given: bool,   // ... and it was handed to the model since the open
 }
 
 /// the state of the session model the next command meets (for the state x command coverage of the evidence)
@@ -1119,6 +1619,8 @@ enum Ev {
     Msgs(u32),
     Done(u32),
     Extracted(u32),
+    /// a pass that read the (final) lifecycle table of the open file: Coq term of the event
+    Lcs(String),
 }
 
 struct CmdResult {
@@ -1290,6 +1792,8 @@ fn track(tr: &mut Tracker, cmd: &Cmd, cls: &Option<O>, viol: &mut Vec<(String, S
             tr.exp_msgs = nm;
             tr.paused = tr.mode == 1;
             tr.got_progress = false;
+            tr.lc_table = content_of_open(&cmd.frame).and_then(|c| c.table.as_ref()).map(|t| lc_table_coq(t));
+            tr.lc_table_given = false;
         }
         1 => tr.paused = payload[0] == 1,
         2 => {
@@ -1937,7 +2441,7 @@ fn gen_cmd(rng: &mut Rng, cfg: &GenCfg, tr: &Tracker, files: &Files, pos: usize)
     // right after an archive open (no file stream yet) the out-of-order commands are the interesting ones: open again, close
     if tr.open && tr.archive && !tr.extract_done && rng.chance(1, 3) {
         let (frame, orc) = if rng.chance(2, 3) { open_ok_cmd(rng, OPEN_OK, files) } else { open_ok_cmd(rng, OPEN_ARCHIVE, files) };
-        return Cmd { sleep_ms: if rng.chance(1, 2) { 0 } else { rng.range(20, 200) }, wait_lc: 0, probe: false, frame, orc };
+        return Cmd { sleep_ms: if rng.chance(1, 2) { 0 } else { rng.range(20, 200) }, wait_lc: 0, wait_msgs: 0, probe: false, frame, orc };
     }
     let want_open = !tr.open && (pos == 0 || rng.chance(3, 5));
     let choice = if want_open && !cfg.malformed_bias { 0 } else { rng.below(100) };
@@ -2034,7 +2538,7 @@ fn gen_cmd(rng: &mut Rng, cfg: &GenCfg, tr: &Tracker, files: &Files, pos: usize)
         _ => ((*rng.pick(UNKNOWN)).to_string(), OrcS::None),
     };
     let probe = wants_probe(&frame) || rng.chance(1, 2);
-    Cmd { sleep_ms, wait_lc: 0, probe, frame, orc }
+    Cmd { sleep_ms, wait_lc: 0, wait_msgs: 0, probe, frame, orc }
 }
 
 // ---------------------------------------------------------------- running one session
@@ -2106,6 +2610,14 @@ fn run_session(plan: Plan, scratch: &Path, tag: &str) -> SessionResult {
             }
             tr.nmsgs = n;
             pending.push(Ev::Msgs(n));
+            // all messages of the file went through the lifecycle stage: this pass (or one of the next ones) reads the
+            // table the file makes the lifecycle thread publish
+            if tr.open && n >= tr.exp_msgs && !tr.lc_table_given {
+                if let Some(t) = &tr.lc_table {
+                    pending.push(Ev::Lcs(t.clone()));
+                    tr.lc_table_given = true;
+                }
+            }
         }
         Async::Done(id) => {
             pending.push(Ev::Done(id));
@@ -2118,7 +2630,7 @@ fn run_session(plan: Plan, scratch: &Path, tag: &str) -> SessionResult {
             (Some(v), _) => v[pos].clone(),
             (_, Some((rng, cfg, files))) => {
                 if pos + 1 == total {
-                    Cmd { sleep_ms: 0, wait_lc: 0, probe: false, frame: format!("zz_sentinel_{}", tag), orc: OrcS::None }
+                    Cmd { sleep_ms: 0, wait_lc: 0, wait_msgs: 0, probe: false, frame: format!("zz_sentinel_{}", tag), orc: OrcS::None }
                 } else {
                     gen_cmd(rng, cfg, &tr, files, pos)
                 }
@@ -2156,6 +2668,19 @@ fn run_session(plan: Plan, scratch: &Path, tag: &str) -> SessionResult {
                 }
             }
             res.tags.push(format!("waited_lc_ms_{}", t0.elapsed().as_millis() / 1000 * 1000));
+        }
+        // wait for the load to finish (FileInfo frames)
+        if cmd.wait_msgs > 0 {
+            let t0 = Instant::now();
+            while dead.is_none() && tr.nmsgs < cmd.wait_msgs && t0.elapsed() < Duration::from_secs(3) {
+                match rx_one(&mut ws) {
+                    Rx::Timeout => {}
+                    Rx::Async(a) => handle_async(a, &mut tr, &mut pending),
+                    Rx::Reply(s) => res.extra_replies.push(s),
+                    Rx::Closed(e) => dead = Some(e),
+                }
+            }
+            res.tags.push(if tr.nmsgs >= cmd.wait_msgs { "waited_load_finished".to_string() } else { "waited_load_timeout".to_string() });
         }
         // wait (reading asynchronous frames)
         let until = Instant::now() + Duration::from_millis(cmd.sleep_ms);
@@ -2249,7 +2774,7 @@ fn run_session(plan: Plan, scratch: &Path, tag: &str) -> SessionResult {
             let spre = std::mem::take(&mut pending);
             tr.closed_ok_before = false;
             sentinel = Some((
-                Cmd { sleep_ms: 0, wait_lc: 0, probe: false, frame: sframe, orc: OrcS::None },
+                Cmd { sleep_ms: 0, wait_lc: 0, wait_msgs: 0, probe: false, frame: sframe, orc: OrcS::None },
                 CmdResult { extra: vec![], state: sstate, pre: spre, nmsgs: tr.nmsgs, reply: sreply, reply_ms: t1.elapsed().as_millis(), dead: dead.clone() },
             ));
         }
@@ -2303,6 +2828,7 @@ fn record(sink: &mut Sink, res: &SessionResult, kind: &str) {
             Ev::Msgs(n) => format!("TMsgs {}", n),
             Ev::Done(id) => format!("TDone {}", id),
             Ev::Extracted(n) => format!("TExtracted {}", n),
+            Ev::Lcs(t) => t.clone(),
         }).collect();
         items.push(format!("it {} {} {}", clist(&pre), cstr(&c.frame), c.orc.coq(r.nmsgs, &c.frame)));
         let o = match &r.reply {
@@ -2331,6 +2857,35 @@ fn record(sink: &mut Sink, res: &SessionResult, kind: &str) {
         }
         if r.pre.iter().any(|e| matches!(e, Ev::Extracted(_))) {
             tags.push("event_extracted".into());
+        }
+        if r.pre.iter().any(|e| matches!(e, Ev::Lcs(_))) {
+            tags.push("event_lifecycle_table".into());
+        }
+        if command_of(&c.frame) == "open" && r.reply.is_some() {
+            if let Some(k) = content_of_open(&c.frame).filter(|k| k.class != "plain") {
+                tags.push(format!("content:{}", k.class));
+                if let Some(t) = &k.table {
+                    tags.push(format!("content_lc_keys_{}", match t.len() { 0 => "0", 1 => "1", 2..=3 => "2-3", _ => ">3" }));
+                    if t.iter().any(|(_, bag)| bag.len() != 1) {
+                        // the lifecycle check's clause table_key_single_value fails on this file (diagnostic here)
+                        tags.push("content_lc_key_without_single_value".into());
+                    }
+                    if t.iter().any(|(k, bag)| bag.iter().any(|(i, _)| i != k)) {
+                        tags.push("content_lc_key_value_mismatch".into());
+                    }
+                } else {
+                    tags.push("content_lc_detector_panicked".into());
+                }
+                if matches!(&c.orc, OrcS::Open(Some((_, true, _)))) {
+                    tags.push("content_open_sorted".into());
+                }
+                if let OrcS::Open(Some((m, _, p))) = &c.orc {
+                    tags.push(format!("content_open_collect_{}", m));
+                    if !p.is_empty() {
+                        tags.push("content_open_plugins".into());
+                    }
+                }
+            }
         }
         if r.pre.iter().any(|e| matches!(e, Ev::Done(_))) {
             tags.push("event_query_done".into());
@@ -2368,9 +2923,12 @@ fn record(sink: &mut Sink, res: &SessionResult, kind: &str) {
     let n_streams = res.results.iter().filter(|r| r.reply.as_deref().map_or(false, |s| s.starts_with("ok: stream ") || s.starts_with("ok: query "))).count();
     let nontrivial = n_ok_open >= 1 && n_streams >= 1 && res.cmds.len() >= 5;
     let case_json = json!({
-        "cmds": res.cmds.iter().map(|c| json!({"sleep_ms": c.sleep_ms, "wait_lc": c.wait_lc, "probe": c.probe, "frame": c.frame, "orc": c.orc.json()})).collect::<Vec<_>>(),
+        "cmds": res.cmds.iter().map(|c| json!({"sleep_ms": c.sleep_ms, "wait_lc": c.wait_lc, "wait_msgs": c.wait_msgs, "probe": c.probe, "frame": c.frame, "orc": c.orc.json()})).collect::<Vec<_>>(),
         "note": "frames contain absolute paths of the generated files; on replay the scratch directory is rewritten",
         "scratch": SCRATCH.get().cloned().unwrap_or_default(),
+        // the session files by content this session opens (seed dependent): written anew on replay
+        "content_files": res.cmds.iter().filter(|c| command_of(&c.frame) == "open").filter_map(|c| content_of_open(&c.frame)).filter(|k| k.class != "plain" && k.nmsgs <= 5_000)
+            .map(|k| (k.name.clone(), json!(hex(&std::fs::read(&k.path).unwrap_or_default())))).collect::<serde_json::Map<String, Value>>(),
         "replies": res.results.iter().map(|r| json!(r.reply)).collect::<Vec<_>>(),
         "reply_ms": res.results.iter().map(|r| json!(r.reply_ms as u64)).collect::<Vec<_>>(),
         "stderr_panic": res.stderr_panic,
@@ -2382,7 +2940,7 @@ fn record(sink: &mut Sink, res: &SessionResult, kind: &str) {
 }
 
 fn fixed(cmds: &[(u64, &str, OrcS)], files: &Files) -> Vec<Cmd> {
-    cmds.iter().map(|(s, f, o)| Cmd { sleep_ms: *s, wait_lc: 0, probe: wants_probe(f), frame: files.subst(f), orc: o.clone() }).collect()
+    cmds.iter().map(|(s, f, o)| Cmd { sleep_ms: *s, wait_lc: 0, wait_msgs: 0, probe: wants_probe(f), frame: files.subst(f), orc: o.clone() }).collect()
 }
 
 fn corpus(files: &Files) -> Vec<(&'static str, Vec<Cmd>)> {
@@ -2623,6 +3181,153 @@ fn corpus(files: &Files) -> Vec<(&'static str, Vec<Cmd>)> {
     ]
 }
 
+/// open options as a dimension of the content sessions: (text after the files list, collect mode, sort, plugins)
+const CONTENT_OPTS: &[(&str, u8, bool, &[(&str, bool)])] = &[
+    ("", 0, false, &[]),
+    ("", 0, false, &[]),
+    (r#","sort":true"#, 0, true, &[]),
+    (r#","collect":false"#, 2, false, &[]),
+    (r#","collect":"all","sort":true"#, 0, true, &[]),
+    (r#","sort":true,"collect":"none""#, 2, true, &[]),
+    (r#","plugins":[{"name":"FileTransfer"}]"#, 0, false, &[("FileTransfer", true)]),
+    (r#","plugins":[{"name":"FileTransfer","allowSave":false,"keepFLDA":true}],"sort":true"#, 0, true, &[("FileTransfer", true)]),
+    (r#","plugins":[{"name":"Rewrite","rewrites":[]},{"name":"FileTransfer"}]"#, 0, false, &[("Rewrite", false), ("FileTransfer", true)]),
+    (r#","plugins":[{"name":"SomeIp","fibexDir":"@DIR"},{"name":"NonVerbose","fibexDir":"@DIR"}]"#, 0, false, &[("SomeIp", false), ("NonVerbose", false)]),
+    (r#","plugins":[{"name":"CAN","fibexDir":"@DIR"}],"collect":false"#, 2, false, &[("CAN", false)]),
+    (r#","collect":"one_pass_streams""#, 1, false, &[]),
+];
+
+/// Sessions on files by content (always run): per file one round
+///   open <file> <options>; [wait until the load has finished | do not wait]; a few ticks; stream / query / search /
+///   time lookup / window / stop / pause / resume; ticks; close; [open again, ticks, close]
+/// with a sentinel behind every command.  What the file makes the background threads publish (lifecycle table with
+/// merged / resumed / rebooted lifecycles, plugin states, sorted output, nothing at all) is read by every pass of
+/// process_file_context in between.  Stream ids are predictable (fresh process: they count from 1).
+fn content_sessions(files: &Files, seed: u64, per_session: usize) -> Vec<(String, Vec<Cmd>)> {
+    let mut rng = Rng::new(seed ^ 0x5e55_10c0);
+    let mut order: Vec<&Content> = files.content.iter().filter(|c| c.class != "plain").collect();
+    for i in (1..order.len()).rev() {
+        let j = rng.below(i as u64 + 1) as usize;
+        order.swap(i, j);
+    }
+    let mut out = vec![];
+    for (k, chunk) in order.chunks(per_session).enumerate() {
+        let mut b = B { v: vec![], next: 1 };
+        let mut waits: Vec<(usize, u32)> = vec![]; // (position of the command that waits, messages)
+        for c in chunk {
+            let big = c.nmsgs > 5_000;
+            let rounds = if c.ft || rng.chance(1, 2) { 2 } else { 1 };
+            for round in 0..rounds {
+                let mut opt = rng.pick(CONTENT_OPTS);
+                // no one-pass draining on the long file; a file transfer history meets the FileTransfer plugin first
+                while (big && opt.1 == 1) || (c.ft && round == 0 && !opt.3.iter().any(|p| p.0 == "FileTransfer")) {
+                    opt = rng.pick(CONTENT_OPTS);
+                }
+                let (mode, sort) = (opt.1, opt.2);
+                let frame = format!(r#"open {{"files":[{}]{}}}"#, serde_json::to_string(&c.path).unwrap(), opt.0);
+                if !c.open_ok {
+                    // nothing the parser accepts: refused, nothing is open afterwards
+                    b.c(0, &frame, OrcS::Open(None));
+                    b.c(rng.below(120), "pause", OrcS::None);
+                    b.c(0, "close", OrcS::None);
+                    break;
+                }
+                b.c(0, &frame, OrcS::Open(Some((mode, sort, opt.3.iter().map(|(n, h)| (n.to_string(), *h)).collect()))));
+                if mode == 1 {
+                    // one-pass context (paused at first): no streams here (known finding class), only the passes
+                    b.c(0, "resume", OrcS::None);
+                    waits.push((b.v.len(), 1));
+                    b.c(rng.range(100, 300), "zz_tick one_pass", OrcS::None);
+                    b.c(rng.range(100, 250), "pause", OrcS::None);
+                    b.c(0, "close", OrcS::None);
+                    continue;
+                }
+                // wait for the load to finish (and a few passes after it), or go on at once
+                let wait = round == 1 || rng.chance(2, 3);
+                if wait {
+                    // a plugin may take messages out (FLDA): wait for the first ones only
+                    waits.push((b.v.len(), if c.ft && !opt.3.is_empty() { 1 } else { c.nmsgs }));
+                    b.c(rng.range(120, 350), "zz_tick after_load", OrcS::None);
+                } else if rng.chance(1, 2) {
+                    b.c(0, "zz_tick at_once", OrcS::None);
+                }
+                let consumes = mode == 0;
+                let n = c.nmsgs as u64;
+                let mut live: Vec<u32> = vec![];
+                for step in 0..rng.range(2, 5) {
+                    // streams first where they are possible
+                    match if step == 0 && consumes { rng.below(3) } else { rng.below(10) } {
+                        0 | 1 => {
+                            let (ws, we) = *rng.pick(&[(0u64, 20u64), (0, 3), (2, 7), (0, 100_000), (5, 3), (n.saturating_sub(2), n + 5), (n, n + 1)]);
+                            let id = b.stream(if rng.chance(2, 3) { "stream" } else { "query" }, false, ws, we, consumes);
+                            if consumes {
+                                live.push(id);
+                            }
+                        }
+                        2 => {
+                            // a filter that matches no message of any content file
+                            let cmd = if rng.chance(1, 2) { "stream" } else { "query" };
+                            b.c(0, &format!(r#"{} {{"filters":[{{"type":0,"ecu":"XXXX"}}],"window":[0,4],"binary":true}}"#, cmd), OrcS::Stream(Some((false, 0, 4, 1, 0, 0, 2))));
+                            if consumes {
+                                live.push(b.next);
+                                b.next += 1;
+                            }
+                        }
+                        3 | 4 => {
+                            // the time lookup reads the lifecycle table too
+                            let id = if live.is_empty() || rng.chance(1, 6) { 99 } else { *rng.pick(&live) };
+                            let ms = match rng.below(5) {
+                                0 => 0,
+                                1 => u64::MAX / 1000,
+                                _ => lcgen::RHO / 1000 + rng.below(4_000_000),
+                            };
+                            b.c(0, &format!("stream_binary_search {} time_ms={}", id, ms), OrcS::Id(false));
+                        }
+                        5 => {
+                            let id = if live.is_empty() { 99 } else { *rng.pick(&live) };
+                            b.c(0, &format!("stream_search {} {}", id, rng.pick(&["{}", r#"{"max_results":3}"#, r#"{"start_idx":1,"filters":[{"type":0,"ecu":"XXXX"}]}"#])), OrcS::Id(true));
+                        }
+                        6 => {
+                            if let Some(pos) = (!live.is_empty()).then(|| rng.below(live.len() as u64) as usize) {
+                                let id = live[pos];
+                                live[pos] = b.window(id, *rng.pick(&["0,5", "1,4", "3,100000", "0,0"]));
+                            } else {
+                                b.c(0, "stream_change_window 99 1,2", OrcS::Id(false));
+                            }
+                        }
+                        7 => {
+                            if let Some(pos) = (!live.is_empty()).then(|| rng.below(live.len() as u64) as usize) {
+                                let id = live.remove(pos);
+                                b.c(0, &format!("stop {}", id), OrcS::Id(false));
+                            } else {
+                                b.c(0, "stop 99", OrcS::Id(false));
+                            }
+                        }
+                        8 => {
+                            b.c(rng.below(150), "pause", OrcS::None);
+                            b.c(rng.below(150), "resume", OrcS::None);
+                        }
+                        _ => b.c(0, r#"plugin_cmd {"name":"FileTransfer","cmd":"foo"}"#, OrcS::Json(3, "FileTransfer".into(), false)),
+                    }
+                }
+                // queries finish on their own (their ids are then unknown): leave them alone afterwards
+                b.c(rng.range(120, 300), "zz_tick before_close", OrcS::None);
+                b.c(0, "close", OrcS::None);
+            }
+        }
+        b.c(0, &format!("zz_sentinel_content{}", k), OrcS::None);
+        let mut cmds: Vec<Cmd> = b.v.into_iter().map(|(s, f, o)| Cmd { sleep_ms: s, wait_lc: 0, wait_msgs: 0, probe: !f.starts_with("zz_"), frame: files.subst(&f), orc: o }).collect();
+        for (pos, n) in waits {
+            if pos < cmds.len() {
+                cmds[pos].wait_msgs = n;
+            }
+        }
+        let _ = k;
+        out.push(("content".to_string(), cmds));
+    }
+    out
+}
+
 /// builder for fixed histories with predictable stream ids (fresh process: ids count from 1)
 struct B {
     v: Vec<(u64, String, OrcS)>,
@@ -2693,7 +3398,7 @@ fn sweep_cmds(b: &mut B, mode: u8) {
 
 fn state_sweeps(files: &Files) -> Vec<(&'static str, Vec<Cmd>)> {
     let open_small = (r#"open {"files":["@A"]}"#, OrcS::Open(Some((0u8, false, vec![]))));
-    let fin = |b: B, probes: bool| -> Vec<Cmd> { b.v.into_iter().map(|(s, f, o)| Cmd { sleep_ms: s, wait_lc: 0, probe: probes && (wants_probe(&f) || command_of(&f) == "open" || command_of(&f) == "close"), frame: files.subst(&f), orc: o }).collect() };
+    let fin = |b: B, probes: bool| -> Vec<Cmd> { b.v.into_iter().map(|(s, f, o)| Cmd { sleep_ms: s, wait_lc: 0, wait_msgs: 0, probe: probes && (wants_probe(&f) || command_of(&f) == "open" || command_of(&f) == "close"), frame: files.subst(&f), orc: o }).collect() };
     let mut out = vec![];
     // closed
     {
@@ -2849,12 +3554,12 @@ fn plugin_matrix(files: &Files) -> Vec<(&'static str, Vec<Cmd>)> {
         let v = &mut sessions[k % 3];
         let plugins: Vec<(String, bool)> = l.iter().filter_map(|c| c.1.map(|(n, h)| (n.to_string(), h))).collect();
         let body = format!(r#"open {{"files":["@A"],"plugins":[{}]}}"#, l.iter().map(|c| c.0).collect::<Vec<_>>().join(","));
-        v.push(Cmd { sleep_ms: 0, wait_lc: 0, probe: true, frame: files.subst(&body), orc: OrcS::Open(Some((0, false, plugins))) });
+        v.push(Cmd { sleep_ms: 0, wait_lc: 0, wait_msgs: 0, probe: true, frame: files.subst(&body), orc: OrcS::Open(Some((0, false, plugins))) });
         for (i, name) in ["FileTransfer", "Rewrite", "SomeIp", "NonVerbose", "Nope"].iter().enumerate() {
             let cmd = ["save", "foo"][(k + i) % 2];
-            v.push(Cmd { sleep_ms: 0, wait_lc: 0, probe: true, frame: format!(r#"plugin_cmd {{"name":"{}","cmd":"{}"}}"#, name, cmd), orc: OrcS::Json(3, name.to_string(), false) });
+            v.push(Cmd { sleep_ms: 0, wait_lc: 0, wait_msgs: 0, probe: true, frame: format!(r#"plugin_cmd {{"name":"{}","cmd":"{}"}}"#, name, cmd), orc: OrcS::Json(3, name.to_string(), false) });
         }
-        v.push(Cmd { sleep_ms: 0, wait_lc: 0, probe: true, frame: "close".into(), orc: OrcS::None });
+        v.push(Cmd { sleep_ms: 0, wait_lc: 0, wait_msgs: 0, probe: true, frame: "close".into(), orc: OrcS::None });
     }
     let names = ["plugin_matrix_0", "plugin_matrix_1", "plugin_matrix_2"];
     sessions.into_iter().enumerate().map(|(i, v)| (names[i], v)).collect()
@@ -2866,7 +3571,7 @@ fn fs_env_matrix(files: &Files) -> Vec<(&'static str, Vec<Cmd>)> {
     let mut all: Vec<Cmd> = vec![];
     let mk = |cmd: &str, base: &str, class: &str, form: &str| -> Cmd {
         let path = format!("{}{}", base, form);
-        Cmd { sleep_ms: 0, wait_lc: 0, probe: true, frame: fs_frame(cmd, &path), orc: OrcS::Fs(fs_expect(cmd, class, form), None) }
+        Cmd { sleep_ms: 0, wait_lc: 0, wait_msgs: 0, probe: true, frame: fs_frame(cmd, &path), orc: OrcS::Fs(fs_expect(cmd, class, form), None) }
     };
     for (k, (base, class)) in files.env.iter().enumerate() {
         all.push(mk("stat", base, class, ""));
@@ -2889,21 +3594,21 @@ fn fs_env_matrix(files: &Files) -> Vec<(&'static str, Vec<Cmd>)> {
     }
     // bodies that do not get as far as the path
     for b in ["fs", "fs ", "fs {", "fs []", "fs 7", "fs null", "fs {}", r#"fs {"cmd":"stat"}"#, r#"fs {"path":"/"}"#, r#"fs {"cmd":1,"path":"x"}"#, r#"fs {"cmd":"stat","path":null}"#] {
-        all.push(Cmd { sleep_ms: 0, wait_lc: 0, probe: true, frame: b.to_string(), orc: OrcS::Fs(Some(false), None) });
+        all.push(Cmd { sleep_ms: 0, wait_lc: 0, wait_msgs: 0, probe: true, frame: b.to_string(), orc: OrcS::Fs(Some(false), None) });
     }
     let names = ["fs_env_closed", "fs_env_file_open", "fs_env_archive_open"];
     let mut sessions: Vec<Vec<Cmd>> = vec![vec![], vec![], vec![]];
-    let open = |f: &str, probe: bool| Cmd { sleep_ms: 0, wait_lc: 0, probe, frame: files.subst(f), orc: OrcS::Open(Some((0, false, vec![]))) };
+    let open = |f: &str, probe: bool| Cmd { sleep_ms: 0, wait_lc: 0, wait_msgs: 0, probe, frame: files.subst(f), orc: OrcS::Open(Some((0, false, vec![]))) };
     sessions[1].push(open(r#"open {"files":["@E/t_m1h.dlt","@E/link_a.dlt"]}"#, true));
     sessions[2].push(open(r#"open {"files":["@E/old.zip"]}"#, false));
     for (k, c) in all.into_iter().enumerate() {
         sessions[k % 3].push(c);
     }
     for (i, v) in sessions.iter_mut().enumerate() {
-        v.push(Cmd { sleep_ms: 0, wait_lc: 0, probe: true, frame: "close".into(), orc: OrcS::None });
+        v.push(Cmd { sleep_ms: 0, wait_lc: 0, wait_msgs: 0, probe: true, frame: "close".into(), orc: OrcS::None });
         if i > 0 {
             v.push(open(r#"open {"files":["@E/t_m1ns.dlt"]}"#, true));
-            v.push(Cmd { sleep_ms: 0, wait_lc: 0, probe: true, frame: "close".into(), orc: OrcS::None });
+            v.push(Cmd { sleep_ms: 0, wait_lc: 0, wait_msgs: 0, probe: true, frame: "close".into(), orc: OrcS::None });
         }
     }
     sessions.into_iter().enumerate().map(|(i, v)| (names[i], v)).collect()
@@ -2941,7 +3646,7 @@ fn one_pass_scenario(rng: &mut Rng, files: &Files, k: u64) -> Vec<Cmd> {
     v.push((200, r#"stream {"window":[0,3],"binary":true}"#.into(), OrcS::Stream(Some((false, 0, 3, 0, 0, 0, 0)))));
     v.push((0, "close".into(), OrcS::None));
     v.push((0, format!("zz_sentinel_p{}", k), OrcS::None));
-    v.into_iter().map(|(s, f, o)| Cmd { sleep_ms: s, wait_lc: 0, probe: wants_probe(&f), frame: files.subst(&f), orc: o }).collect()
+    v.into_iter().map(|(s, f, o)| Cmd { sleep_ms: s, wait_lc: 0, wait_msgs: 0, probe: wants_probe(&f), frame: files.subst(&f), orc: o }).collect()
 }
 
 fn main() {
@@ -2950,10 +3655,31 @@ fn main() {
         explore(&argv[2]);
         return;
     }
+    if argv.len() >= 2 && argv[1] == "--content-report" {
+        // development aid: what the trusted stages make of the session files by content, for a few seeds
+        for seed in 1..=argv.get(2).and_then(|s| s.parse::<u64>().ok()).unwrap_or(1) {
+            let dir = tempfile::tempdir().unwrap();
+            write_dlt(&dir.path().join("a.dlt"), 10, 0);
+            write_dlt(&dir.path().join("b.dlt"), 5, 10);
+            write_dlt(&dir.path().join("c.dlt"), 3, 15);
+            for c in create_content(dir.path(), seed) {
+                let odd = c.table.as_ref().map_or(false, |t| t.iter().any(|(_, b)| b.len() != 1));
+                println!("seed {} {:28} {:16} msgs {:6} open_ok {:5} keys {:?}{}", seed, c.name, c.class, c.nmsgs, c.open_ok, c.table.as_ref().map(|t| t.iter().map(|(k, b)| (*k, b.len())).collect::<Vec<_>>()), if odd { "  <-- key without single value" } else { "" });
+            }
+        }
+        return;
+    }
     let a = parse_args();
     let mut sink = Sink::new("C15", &a.out);
     sink.shard_size = 12;
     let scratch = tempfile::tempdir().unwrap();
+    // replay: the recorded session files by content replace the ones generated from this run's seed
+    if let Some(p) = &a.replay {
+        let v = read_replay(p);
+        if let Some(m) = v["case"]["content_files"].as_object() {
+            let _ = REPLAY_CONTENT.set(m.iter().map(|(k, d)| (k.clone(), unhex(d.as_str().unwrap_or("")))).collect());
+        }
+    }
     let files = Files::create(scratch.path(), a.seed);
     let _ = SCRATCH.set(scratch.path().to_str().unwrap().to_string());
 
@@ -2972,7 +3698,7 @@ fn main() {
                     Some(old) if !old.is_empty() => f.replace(old, files.dir.to_str().unwrap()),
                     _ => rewrite_paths(f, &files),
                 };
-                Cmd { sleep_ms: x["sleep_ms"].as_u64().unwrap(), wait_lc: x["wait_lc"].as_u64().unwrap_or(0) as u32, probe: x["probe"].as_bool().unwrap_or(false), frame, orc: OrcS::from_json(&x["orc"]) }
+                Cmd { sleep_ms: x["sleep_ms"].as_u64().unwrap(), wait_lc: x["wait_lc"].as_u64().unwrap_or(0) as u32, wait_msgs: x["wait_msgs"].as_u64().unwrap_or(0) as u32, probe: x["probe"].as_bool().unwrap_or(false), frame, orc: OrcS::from_json(&x["orc"]) }
             })
             .collect();
         let res = run_session(Plan::Fixed(cmds), scratch.path(), "replay");
@@ -3000,6 +3726,14 @@ fn main() {
         }
         for (name, cmds) in fs_env_matrix(&files) {
             plans.push((name.to_string(), Plan::Fixed(cmds)));
+        }
+        for (name, cmds) in content_sessions(&files, a.seed, 3) {
+            plans.push((name, Plan::Fixed(cmds)));
+        }
+    } else {
+        // the search for a failing input: other seeds = other content files, other options
+        for (name, cmds) in content_sessions(&files, a.seed, 3) {
+            plans.push((name, Plan::Fixed(cmds)));
         }
     }
     let mut rng = Rng::new(a.seed);
@@ -3080,6 +3814,31 @@ fn main() {
         sink.extra_stats.insert("fs_env_classes_missing".into(), json!(missing));
         if !missing.is_empty() && a.tier != "search" {
             eprintln!("c15: value classes of the environment not reached in this run (file system / platform): {:?}", missing);
+        }
+    }
+    // content classes opened
+    {
+        let mut seen: std::collections::BTreeSet<&'static str> = Default::default();
+        let mut opens = 0usize;
+        for (_, res) in &results {
+            for (c, r) in res.cmds.iter().zip(res.results.iter()) {
+                if command_of(&c.frame) == "open" && r.reply.is_some() {
+                    if let Some(k) = content_of_open(&c.frame) {
+                        seen.insert(k.class);
+                        if k.class != "plain" {
+                            opens += 1;
+                        }
+                    }
+                }
+            }
+        }
+        let missing: Vec<&str> = ALL_CONTENT_CLASSES.iter().filter(|c| !seen.contains(**c)).cloned().collect();
+        sink.extra_stats.insert("content_files".into(), json!(files.content.len()));
+        sink.extra_stats.insert("content_opens".into(), json!(opens));
+        sink.extra_stats.insert("content_classes_missing".into(), json!(missing));
+        sink.extra_stats.insert("content_files_with_key_without_single_value".into(), json!(files.content.iter().filter(|c| c.table.as_ref().map_or(false, |t| t.iter().any(|(_, b)| b.len() != 1))).map(|c| c.name.clone()).collect::<Vec<_>>()));
+        if !missing.is_empty() {
+            eprintln!("c15: content classes not opened in this run: {:?}", missing);
         }
     }
     sink.extra_stats.insert("sessions".into(), json!(results.len()));
